@@ -378,7 +378,7 @@ func (g *gen) threadCallProg(t int) int {
 			script = append(script, ScriptStep{D: d, K: "chunk"})
 			at += d
 		case x < 7:
-			script = append(script, ScriptStep{D: d, K: "final"})
+			script = append(script, ScriptStep{D: d, K: hcommon.Pick(r, []string{"final", "unset"})})
 			at += d
 			i = n
 		case x < 8:
